@@ -250,7 +250,8 @@ def _hibernation(P, w, tree, new_demes):
         act_at_round, hib_at_round, _ = w.round["snap"][did]
         took_part = val(act_at_round) and pre["level"] < height - 1
         if took_part:
-            sprouted = did in w.round["seeds"]
+            # "the round took a sprout from it" = a child of this deme was created by the round
+            sprouted = any(c.id not in w.pre for c in d.children)
             P.oblige("C18.hibernating_iff_no_sprout_taken", val(d._hibernating) == (not sprouted))
         else:
             P.oblige("C18.flag_unchanged_when_not_in_round", iff(d._hibernating, hib_at_round))
@@ -324,6 +325,13 @@ def tree_cases(prop, tier, hibernation_values=(False,), extra=None):
     for mech in ("simple", "nbc"):
         add(f"step.ea-cma.{mech}", kinds=["ea", "cma"], shape=[[0]], generations=2, L=2, hibernation=hibernation_values[-1], mech=mech)
         add(f"step.ea-ea-cma.{mech}", kinds=["ea", "ea", "cma"], shape=[[0], [0]], generations=1, L=2, hibernation=hibernation_values[-1], mech=mech)
+    # one parent sprouting several children in one round (user-composed mechanism without a per-deme limit)
+    for hib in hibernation_values[:1]:
+        add(f"step.ea-cma.multi-sprout.hib{hib}", kinds=["ea", "cma"], shape=[[0]], generations=1, L=3, hibernation=hib, deme_filters="none")
+        add(f"step.ea-ea-cma.multi-sprout.hib{hib}", kinds=["ea", "ea", "cma"], shape=[[0], [0]], generations=1, L=3, hibernation=hib, deme_filters="none")
+    # more than two generations per metaepoch
+    for kinds in (("de", "cma"), ("ea", "cma"), ("shade", "cma")):
+        add(f"step.{'-'.join(kinds)}.g3", kinds=list(kinds), shape=[[0]], generations=3, L=2, hibernation=hibernation_values[0])
     if extra:
         extra(add)
     return cs
